@@ -150,6 +150,10 @@ impl Property for C04 {
         let mode = src.below(8);
         let h_a = src.below(1 << 16) as usize;
         let h_b = src.below(1 << 16) as usize;
+        // one run in seven takes the persistent server's own connection loop (handle_connection in
+        // src/bin/server_persistent.rs, included as a module by build.rs) in front of the replicated node it serves
+        let persistent = crate::sp_bin::AVAILABLE && src.chance(1, 7);
+        if persistent { rep.probe("persistent_server_connection_loop"); }
         let mut cfg = ConnectionConfig {
             max_buffer_size: 512 * 1024 * 1024,
             read_buffer_size: *src.pick(&[8192usize, 1, 7, 16, 64]),
@@ -182,7 +186,7 @@ impl Property for C04 {
         let short_writes = if short_writes == 0 && src.chance(1, 8) { *src.pick(&[1000usize, 4096, 65536]) } else { short_writes };
         // earlier connections of the same server: they share its buffer pool with this one. Each sends a few
         // PINGs and then breaks off in the middle of a frame.
-        let prior = if src.chance(1, 4) { 1 + src.below(2) as usize } else { 0 };
+        let prior = if src.chance(1, 4) && !persistent { 1 + src.below(2) as usize } else { 0 };
         let pool_size = *src.pick(&[4usize, 1, 2]);
         if prior > 0 { rep.probe("prior_connections_on_shared_pool"); rep.fault("earlier_connection_broke_off_mid_frame"); }
         if short_writes > 0 { rep.fault("short_socket_writes"); }
@@ -241,7 +245,8 @@ impl Property for C04 {
         let epilogue = malformed && dmg_at == cmds.len();
         struct Out { pong: Option<bool>, a_out: Vec<u8>, b_out: Vec<u8>, a_idle_pending: usize, b_stuck: bool, dump_a: std::collections::BTreeMap<Vec<u8>, String>, dump_b: std::collections::BTreeMap<Vec<u8>, String>, steps: u64, a_closed: bool }
         let out: Out = rt::block_on(seed, async move {
-            let (state_a, state_b) = match &shipped { Some(pc) => (ShardedActorState::with_perf_config(pc), ShardedActorState::with_perf_config(pc)), None => (new_state(shards), new_state(shards)) };
+            let mk_node = || std::sync::Arc::new(redis_sim::production::ReplicatedShardedState::new(crate::model::cluster::repl_config(1, redis_sim::replication::ConsistencyLevel::Eventual)));
+            let (state_a, state_b) = if persistent { (Sut::Per(mk_node()), Sut::Per(mk_node())) } else { match &shipped { Some(pc) => (Sut::Opt(ShardedActorState::with_perf_config(pc)), Sut::Opt(ShardedActorState::with_perf_config(pc))), None => (Sut::Opt(new_state(shards)), Sut::Opt(new_state(shards))) } };
             let sa = StreamHandle::new(); let sb = StreamHandle::new();
             sa.0.borrow_mut().max_write = short_writes;
             let pool = ConnectionPool::new(16, pool_size);
@@ -251,12 +256,22 @@ impl Property for C04 {
                 for _ in 0..=p { junk.extend_from_slice(b"*1\r\n$4\r\nPING\r\n"); }
                 junk.extend_from_slice(&b"*2\r\n$3\r\nGET\r\n$7\r\nabc"[..(12 + 7 * p).min(24)]);
                 sp.deliver(&junk); sp.close();
-                verif_hooks::connection_on_pool(sp.server_end(), state_a.clone(), cfg2.clone(), &pool).await;
+                if let Sut::Opt(st) = &state_a { verif_hooks::connection_on_pool(sp.server_end(), st.clone(), cfg2.clone(), &pool).await; }
             }
             let mut sched = Sched::new();
             sched.idle_limit_ms = 30_000;
-            sched.add("handlerA", verif_hooks::connection_on_pool(sa.server_end(), state_a.clone(), cfg2.clone(), &pool));
-            sched.add("handlerB", verif_hooks::connection(sb.server_end(), state_b.clone(), cfg2.clone()));
+            match (&state_a, &state_b) {
+                (Sut::Opt(a), Sut::Opt(b)) => {
+                    sched.add("handlerA", verif_hooks::connection_on_pool(sa.server_end(), a.clone(), cfg2.clone(), &pool));
+                    sched.add("handlerB", verif_hooks::connection(sb.server_end(), b.clone(), cfg2.clone()));
+                }
+                (Sut::Per(a), Sut::Per(b)) => {
+                    let (fa, fb) = (crate::sp_bin::verif_handle_connection(sa.server_end(), a.clone()), crate::sp_bin::verif_handle_connection(sb.server_end(), b.clone()));
+                    sched.add("handlerA", async move { let _ = fa.await; });
+                    sched.add("handlerB", async move { let _ = fb.await; });
+                }
+                _ => unreachable!(),
+            }
             let sa2 = sa.clone();
             sched.add("clientA", async move {
                 let mut prev = 0;
@@ -302,8 +317,8 @@ impl Property for C04 {
             let a_closed = sa.0.borrow().closed_by_server;
             let b_stuck = b_done.get() < ncmds;
             let (a_out, b_out) = (sa.out(), sb.out());
-            let dump_a = dump_prod(&state_a).await;
-            let dump_b = dump_prod(&state_b).await;
+            let dump_a = dump_sut(&state_a).await;
+            let dump_b = dump_sut(&state_b).await;
             sa.close(); sb.close();
             for _ in 0..50 { if sched.is_done(0) && sched.is_done(1) { break; } let _ = sched.step(src, 0).await; }
             Out { pong, a_out, b_out, a_idle_pending, b_stuck, dump_a, dump_b, steps: sched.steps, a_closed }
@@ -362,10 +377,18 @@ impl Property for C04 {
     }
 }
 
-pub async fn dump_prod(state: &ShardedActorState) -> std::collections::BTreeMap<Vec<u8>, String> {
+/// The server behind the connection: the sharded server of server_optimized, or the replicated node of server_persistent.
+pub enum Sut { Opt(ShardedActorState), Per(std::sync::Arc<redis_sim::production::ReplicatedShardedState>) }
+impl Sut {
+    async fn exec(&self, parts: Vec<Vec<u8>>) -> R {
+        match crate::model::wire::parse_cmd(&parts) { Ok(c) => match self { Sut::Opt(s) => R::from_resp(&s.execute(&c).await), Sut::Per(n) => R::from_resp(&n.execute(c).await) }, Err(e) => R::Err(e) }
+    }
+}
+pub async fn dump_prod(state: &ShardedActorState) -> std::collections::BTreeMap<Vec<u8>, String> { dump_sut(&Sut::Opt(state.clone())).await }
+pub async fn dump_sut(state: &Sut) -> std::collections::BTreeMap<Vec<u8>, String> {
     // same dump as C03's, for the production time source
     let mut out = std::collections::BTreeMap::new();
-    let exec = |parts: Vec<Vec<u8>>| async move { match crate::model::wire::parse_cmd(&parts) { Ok(c) => R::from_resp(&state.execute(&c).await), Err(e) => R::Err(e) } };
+    let exec = |parts: Vec<Vec<u8>>| async move { state.exec(parts).await };
     let R::Arr(Some(keys)) = exec(crate::model::wire::cmd(&["KEYS", "*"])).await else { return out };
     for k in keys {
         let R::Bulk(Some(k)) = k else { continue };
@@ -387,7 +410,7 @@ pub async fn dump_prod(state: &ShardedActorState) -> std::collections::BTreeMap<
 }
 
 fn finish(mut rep: RunReport, cmds: &[Cmd], cuts: &[usize], cfg: &ConnectionConfig, shards: usize, len: usize, malformed: bool) -> RunReport {
-    let mut fp = fnv(0, &[shards as u8, (cfg.read_buffer_size % 251) as u8, (cfg.min_pipeline_buffer % 251) as u8, cfg.batch_threshold as u8, malformed as u8]);
+    let mut fp = fnv(rep.probes.contains_key("persistent_server_connection_loop") as u64, &[shards as u8, (cfg.read_buffer_size % 251) as u8, (cfg.min_pipeline_buffer % 251) as u8, cfg.batch_threshold as u8, malformed as u8]);
     for c in cmds { for a in c { fp = fnv(fp, a); fp = fnv(fp, &[0]); } }
     for c in cuts { fp = fnv(fp, &(*c as u32).to_le_bytes()); }
     rep.fingerprint = fp;
